@@ -270,7 +270,9 @@ V_CrossRun(failed) ==
     \* same fixed seed, same property: the whole run is identical
     \cup (IF runinfo.expect = "same_run"
      THEN If(Strip(runlog) # Strip(pr.runlog), "seed_run_differs")
-          \cup If(rep.kind # pr.rep.kind \/ rep.valid # pr.rep.valid \/ rep.msg # pr.rep.msg, "seed_run_differs")
+          \* (what the TB was told is observable only when both runs had a recording TB)
+          \cup If(runinfo.entry # "makecheck" /\ pr.entry # "makecheck" /\ (rep.kind # pr.rep.kind \/ rep.valid # pr.rep.valid \/ rep.msg # pr.rep.msg), "seed_run_differs")
+          \cup If(failed # pr.failed, "seed_run_differs")
           \cup If(buf.id # pr.buf.id, "seed_run_differs")
      ELSE {})
     \* unusable fail files present: same random test cases and same verdict as without them
@@ -284,7 +286,7 @@ RunEnd ==
   /\ viol' = viol \cup (IF runinfo.entry = "makecheck" THEN V_RunEndNoTB(Ev.failed) ELSE V_RunEnd(Ev.failed, Ev.failnow)) \cup V_CrossRun(Ev.failed)
                   \cup If(Ev.how = "panic", "check_crashed")
   /\ prev' = Append(prev, [valid |-> TRUE, rep |-> rep, buf |-> buf, finalDraws |-> mon.finalObs.draws, failDraws |-> mon.failDraws,
-              runlog |-> runlog, failed |-> Ev.failed, savedFile |-> mon.savedFile, fromFF |-> mon.fromFF])
+              runlog |-> runlog, failed |-> Ev.failed, savedFile |-> mon.savedFile, fromFF |-> mon.fromFF, entry |-> runinfo.entry])
   /\ pc' = "ended"
   /\ UNCHANGED <<cfg, ffq, ff, pend, valid, invalid, seed, cur, flag, e1, e2, buf, best, orig, sErr, cache, shrinks, rep, tbFailed, tbFailNow, mon>>
   /\ UNCHANGED <<scen, ffBuf, topInv, runlog, runinfo>>
